@@ -33,6 +33,7 @@ NI static void valid_checks(asn_TYPE_descriptor_t *td, void *st, int pairs, stru
     char lab[128];
     for(int e = 0; e < 5; e++) {
         struct sink ref = { 0, 0, 0, 0, -1, -1 };
+        if(pm_masked(SYN[e])) continue;
         snprintf(lab, sizeof lab, "v:%s:count", SYN[e]); if(cur_label(lab)) continue;
         errno = 0;
         asn_enc_rval_t er = asn_encode(0, SYNV[e], td, st, sink_cb, &ref);
@@ -50,7 +51,7 @@ NI static void valid_checks(asn_TYPE_descriptor_t *td, void *st, int pairs, stru
             R->evals++;
             if(sz < n) R->fired++;
             if(r2.encoded != er.encoded) eviol(R, "%s:to_buffer:size%zu:returned%zd!=%zd", SYN[e], sz, r2.encoded, er.encoded);
-            else if(sz && memcmp(b, ref.b, sz < n ? sz : n)) eviol(R, "%s:to_buffer:size%zu:prefix_differs", SYN[e], sz);
+            else if(sz >= n && n && memcmp(b, ref.b, n)) eviol(R, "%s:to_buffer:size%zu:content_differs", SYN[e], sz);
             if(sz) __real_free(b);
         }
         /* new buffer */
@@ -87,6 +88,7 @@ NI static void any_struct_checks(asn_TYPE_descriptor_t *td, void *st, const char
     if(!st) return;
     for(int e = 0; e < 5; e++) {
         struct sink ref = { 0, 0, 0, 0, -1, -1 };
+        if(pm_masked(SYN[e])) continue;
         snprintf(lab, sizeof lab, "%s:%s", what, SYN[e]); if(cur_label(lab)) continue;
         errno = 0;
         asn_enc_rval_t er = asn_encode(0, SYNV[e], td, st, sink_cb, &ref);
